@@ -1,5 +1,5 @@
 """C11 - raw pointers round-trip to the same allocation; handles are one word wide."""
-from .. import balance, cfg, core, ptrclass
+from .. import balance, cfg, core, ptrclass, symx
 from ..facts import operand_place
 from . import c04, c13
 
@@ -49,9 +49,69 @@ def has_ref_data(n):
     return any(has_ref_data(x) for x in n if isinstance(x, tuple))
 
 
+def _union_words_agree(F, b_as, b_into):
+    """Both functions, evaluated on sample stored words (either tag) and payload alignments, return the stored word itself."""
+    from . import c12
+
+    u = F.adts.get(F.handle_paths.get("ArcUnion", ""))
+    if not u:
+        return False
+    gen = [g["name"] for g in u["generics"] if g["kind"] == "type"]
+    symx.set_facts(F)
+    priv = lambda k: not balance.is_api(F, F.body(k)) or (F.body(k) or {}).get("name") in ("borrow", "is_first", "is_second", "get")
+    es = [symx.normalize_calls(F, symx.fn_value(F, b), priv) for b in (b_as, b_into)]
+    bits = F.pointer_bits
+    for aa in c12.ALIGNS:
+        for ab in c12.ALIGNS:
+            al = {gen[0]: aa, gen[1]: ab}
+            for P in c12.SAMPLES:
+                if P >= (1 << bits) or P % max(aa, ab, 8):
+                    continue
+                for tagbit in (0, 1):
+                    w = P | tagbit
+                    leaf = c12.union_word_leaf(w, al)
+                    for e in es:
+                        if symx.eval_int(e, leaf, bits) != w:
+                            return False
+    return True
+
+
+def rule_refcnt_pair(ctx, rep, only=None):
+    """arc-swap's contract for `RefCnt` impls: `as_ptr(&h)` and `into_ptr(h)` denote the same pointer (it matches the pointer it
+    recorded for a `load()` guard against the one it holds; if they differ - e.g. one keeps a tag bit the other strips - it
+    releases a count nobody owned), and `from_ptr` takes back what `into_ptr` gave out. Judged on every `RefCnt` impl of the
+    crate (pointer normal forms), in the configurations that have the feature."""
+    n = 0
+    for tag, F, E in ctx.each(da=False):
+        N = ptrclass.Norm(F)
+        impls = {}
+        for b in F.body_list:
+            imp = b.get("impl") or {}
+            if (imp.get("trait") or "").endswith("ref_cnt::RefCnt") and b.get("name") in ("as_ptr", "into_ptr", "from_ptr"):
+                hn = F.handle_name(imp["self_ty"])
+                if only is not None and hn not in only:
+                    continue
+                impls.setdefault((hn or F.ts(imp["self_ty"])), {})[b["name"]] = b
+        for hn, ms in impls.items():
+            if "as_ptr" not in ms or "into_ptr" not in ms:
+                continue
+            n += 1
+            ik = "%s as RefCnt::as_ptr=into_ptr" % hn
+            a = simp(N.ret(ms["as_ptr"]["key"]))
+            r = simp(N.ret(ms["into_ptr"]["key"]))
+            if a == r and a[0] != "opaque":
+                rep.ok("R-REFCNT-PAIR", ik, ptrclass.show(a), cfg=tag)
+            elif hn == "ArcUnion" and _union_words_agree(F, ms["as_ptr"], ms["into_ptr"]):
+                rep.ok("R-REFCNT-PAIR", ik, "evaluated: both yield the stored (tagged) word for every sample word and payload alignment", cfg=tag)
+            else:
+                rep.bad("R-REFCNT-PAIR", ik, "`RefCnt::as_ptr` returns %s but `RefCnt::into_ptr` returns %s: arc-swap compares the two to settle the debt of a `load()` guard; when they differ it drops the guard's handle although the count was never taken - the value is released while still owned" % (ptrclass.show(a), ptrclass.show(r)), F.loc(ms["as_ptr"]), tag)
+    return n
+
+
 def run(ctx, rep):
     from . import c10
 
+    rule_refcnt_pair(ctx, rep)
     c10.rule_thick(ctx, rep)  # a thin handle taken back from its raw pointer shows the slice its block holds: the length is read from that block's own header
     for tag, F, E in ctx.each(da=False):
         N = ptrclass.Norm(F)
